@@ -79,7 +79,7 @@ theorem fmtSeg_wf (conv : Cello.Fmt.Str) (hB : bridgeOK conv = true) (it : Item)
   | some mc =>
     obtain ⟨mods, cb⟩ := mc
     obtain ⟨_, _, hmods, hcb⟩ := parts_spec it mods cb hp
-    simp only [Item.fmtSeg, hp, Cello.Fmt.Seg.wf, Bool.and_eq_true, decide_eq_true_eq, bne_iff_ne, ne_eq, List.all_eq_true, toStr,
+    simp only [Item.fmtSeg, hp, Cello.Fmt.Seg.wf, Bool.and_eq_true, decide_eq_true_eq, ne_eq, List.all_eq_true, toStr,
       List.mem_map, forall_exists_index, and_imp, forall_apply_eq_imp_iff₂]
     refine ⟨⟨⟨(hc cb hcb).1, (hc cb hcb).2⟩, fun b hbm => ⟨(hm b (hmods b hbm)).1.1, (hm b (hmods b hbm)).1.2⟩⟩, ?_⟩
     cases mods with
@@ -91,7 +91,7 @@ theorem fmtSeg_wf (conv : Cello.Fmt.Str) (hB : bridgeOK conv = true) (it : Item)
     rcases parts_none it hp with ⟨t, rfl⟩ | rfl
     · obtain ⟨hne, hbs⟩ := hb t rfl
       simp only [Item.fmtSeg, Item.parts, Cello.Fmt.Seg.wf, Bool.and_eq_true, Bool.not_eq_true', List.isEmpty_eq_false_iff,
-        List.all_eq_true, toStr, List.mem_map, forall_exists_index, and_imp, forall_apply_eq_imp_iff₂, bne_iff_ne, ne_eq]
+        List.all_eq_true, toStr, List.mem_map, forall_exists_index, and_imp, forall_apply_eq_imp_iff₂, ne_eq]
       refine ⟨by simpa using hne, fun b hbt => ?_⟩
       obtain ⟨h0, h37, h256⟩ := hbs b hbt
       have e0 : Char.ofNat b ≠ Cello.Fmt.NUL := ofNat_ne_of_ne b 0 h256 (by omega) h0
